@@ -422,7 +422,10 @@ where
             }
         }
 
-        self.idle.entry(token).or_default().push(connection);
+        self.idle
+            .entry(token)
+            .or_default()
+            .push_limited(connection, self.config.max_idle_per_host);
     }
 
     fn pop(&mut self, token: Token) -> Option<C> {
